@@ -29,6 +29,8 @@ ASSUMPTIONS = [
     "io semantics of dissect.util AlignedStream: seek clamps CUR/END at 0, negative SET raises ValueError, reads past the end "
     "return the available bytes, peek does not move the position",
     "sector-addressed reads stay inside the disk and do not move the stream position",
+    "the caller owns the file objects it supplied and may seek / read them between two calls on the stream ('disturb' "
+    "operation): a stream must position the handle itself before every read",
     "thread-safety is not part of the property; AlignedStream itself is a dependency exercised, not verified, here",
 ]
 ALPHABET = "~35 operations per instance (10 seek targets, CUR/END deltas, 6 read lengths, readinto, peek, readoffset, tell, read_sectors)"
@@ -373,14 +375,34 @@ def alphabet(S, A, unit, sectors, lean=False):
     ops += [("readoffset", p, n) for p, n in (((A - 1, 2),) if lean else ((0, 1), (A - 1, 2), (S - 1, 5), (u - 1, 3)))]
     if not lean:
         ops.append(("tell",))
+        ops.append(("disturb", 4096 + 123, 1000))
     if sectors:
         ns = S // 512
         ops += [("read_sectors", s, c) for s, c in ((0, 1), (max(0, u // 512 - 1), 2), (ns - 1, 1))]
     return ops
 
 
+def _handles(stream):
+    """The file objects the caller supplied (the caller owns them and may move them between calls)."""
+    out = []
+    for obj in [stream] + list(getattr(stream, "disks", []) or []) + [getattr(stream, "disk", None)]:
+        fh = getattr(obj, "fh", None)
+        if fh is not None and hasattr(fh, "seek") and not isinstance(fh, (str, bytes)):
+            out.append(fh)
+    return out
+
+
 def _apply_impl(stream, reader, op):
     k = op[0]
+    if k == "disturb":
+        # the owner of the underlying handle(s) uses them between two calls (e.g. hashes the evidence file)
+        for fh in _handles(stream):
+            try:
+                fh.seek(op[1])
+                fh.read(op[2])
+            except Exception:
+                pass
+        return None
     if k == "seek":
         return stream.seek(op[1], op[2])
     if k == "read":
@@ -401,6 +423,8 @@ def _apply_impl(stream, reader, op):
 
 
 def _apply_model(m, op):
+    if op[0] == "disturb":
+        return None
     if op[0] == "read_sectors":
         return m.disk.content(op[1] * 512, op[2] * 512)
     return m.apply(op)
